@@ -7,6 +7,7 @@ from ..r_construct import (rule_keep_lists, rule_literal_keys, rule_construction
                            rule_symmetry, rule_changed_set)
 from ..r_alias import rule_no_mutation_of_cached, rule_no_stale_alias, rule_merge_fresh, rule_row_order
 from ..r_keys import rule_fresh_keys
+from ..r_hygiene import rule_hygiene as _rule_hygiene
 
 LEVEL = 'other'
 
@@ -35,3 +36,4 @@ def run(ck, repo):
     rule_merge_fresh(ck, repo, 'A3-merge-fresh-copy')
     rule_row_order(ck, repo, 'A4-row-order')
     rule_fresh_keys(ck, repo, 'B8-fresh-atom-numbers')
+    _rule_hygiene(ck, repo, 'C13.H-dataflow-hygiene', 'C13')
